@@ -1,5 +1,5 @@
 (* C04 - Decoding untrusted CTAP2 bytes never panics, aborts or hangs. *)
-From Ctap Require Import Base Schema Wire Utf8 Typed Procs Inst Tables ProcTables CborItem WireP SkipP TypedP FramingP C11P Finite Utf8P StrsP SerP TotalP ObRequestSide ObOpTables ObRequestTotal FnShapes Shapes ObShapeRequest ObShapeStrings ObAllTotal Deps ObDeps ObShapeFilters.
+From Ctap Require Import Base Schema Wire Utf8 Typed Procs Inst Tables ProcTables CborItem WireP SkipP TypedP FramingP C11P Finite Utf8P StrsP SerP TotalP ObRequestSide ObOpTables ObRequestTotal FnShapes Shapes ObShapeRequest ObShapeStrings ObAllTotal Deps ObDeps ObShapeFilters ObShapeTablesOp ObShapeTablesReq ObShapeTablesInfo.
 Local Open Scope string_scope.
 Local Open Scope Z_scope.
 
@@ -153,12 +153,21 @@ Theorem c04_modelled_functions_unchanged_strings : shapes_hold fn_shapes shapes_
 Proof. exact generated_shapes_strings. Qed.
 
 (* the third-party crates the model represents by hand are pinned at the versions it was written against *)
-Theorem c04_modelled_dependencies_pinned : deps_hold lock_versions cargo_deps = true.
+Theorem c04_modelled_dependencies_pinned : deps_hold repo_lock_present lock_versions harness_lock_versions cargo_deps = true.
 Proof. exact generated_deps. Qed.
 
 (* further hand-modelled functions this property rests on *)
 Theorem c04_modelled_functions_unchanged_filters : shapes_hold fn_shapes shapes_filters = true.
 Proof. exact generated_shapes_filters. Qed.
+
+(* lookup tables, accessors, builders and further generators this property rests on *)
+Theorem c04_modelled_functions_unchanged_tables_op : shapes_hold fn_shapes shapes_tables_op = true.
+Proof. exact generated_shapes_tables_op. Qed.
+
+Theorem c04_modelled_functions_unchanged_tables_req : shapes_hold fn_shapes shapes_tables_req = true.
+Proof. exact generated_shapes_tables_req. Qed.
+Theorem c04_modelled_functions_unchanged_tables_info : shapes_hold fn_shapes shapes_tables_info = true.
+Proof. exact generated_shapes_tables_info. Qed.
 
 Eval vm_compute in "ASSUMPTIONS c04_deterministic". Print Assumptions c04_deterministic.
 Eval vm_compute in "ASSUMPTIONS c04_skipper_total". Print Assumptions c04_skipper_total.
@@ -179,3 +188,6 @@ Eval vm_compute in "ASSUMPTIONS c04_generated_all_types_decodable". Print Assump
 Eval vm_compute in "ASSUMPTIONS c04_every_deserializable_type_total". Print Assumptions c04_every_deserializable_type_total.
 Eval vm_compute in "ASSUMPTIONS c04_modelled_dependencies_pinned". Print Assumptions c04_modelled_dependencies_pinned.
 Eval vm_compute in "ASSUMPTIONS c04_modelled_functions_unchanged_filters". Print Assumptions c04_modelled_functions_unchanged_filters.
+Eval vm_compute in "ASSUMPTIONS c04_modelled_functions_unchanged_tables_op". Print Assumptions c04_modelled_functions_unchanged_tables_op.
+Eval vm_compute in "ASSUMPTIONS c04_modelled_functions_unchanged_tables_req". Print Assumptions c04_modelled_functions_unchanged_tables_req.
+Eval vm_compute in "ASSUMPTIONS c04_modelled_functions_unchanged_tables_info". Print Assumptions c04_modelled_functions_unchanged_tables_info.
